@@ -364,7 +364,8 @@ fn run_history_on<'c, 's, W: Write>(d: &Datum, config: &'c mut SerializerConfig<
 				values.push(v);
 				let w = writer.as_mut().unwrap();
 				let (r, calls) = pres::with_failure(Some(k as usize), || guarded(|| w.serialize(&p).map_err(|e| e.to_string())));
-				if !r.is_panic() && calls <= k as usize {
+				// (calls == 0: the writer returned before attempting the value, e.g. a pending flush failed)
+				if !r.is_panic() && calls > 0 && calls <= k as usize {
 					machinery(&format!("failure point {k} never reached ({calls} serialize calls)"));
 				}
 				r
@@ -414,7 +415,9 @@ fn run_history_on<'c, 's, W: Write>(d: &Datum, config: &'c mut SerializerConfig<
 				})
 			}
 		};
-		if result.is_ok() {
+		// the numbering advances for every value handed over by an operation of the ok-alphabet,
+		// also when the call returns Err because of the sink (the value may still reach the file)
+		if result.is_ok() || (result.is_err() && !op.failing()) {
 			accepted += values.len();
 		}
 		let alive = writer.is_some() && !result.is_panic();
